@@ -6,7 +6,7 @@
      and buffer kinds                                               ([known_sound], entry by entry; [prim_ops_model]);
    - hence all flavours of one (protocol, method) denote the same bytes and context ([prim_ops_flavour_independent]). *)
 From Coq Require Import String.
-From PV Require Import Thrift.Len Thrift.Msg Thrift.PrimOp Thrift.PrimOpsSem Thrift.PrimOpsKnown Generated.PrimOps.
+From PV Require Import Thrift.Len Thrift.Msg Thrift.Async Thrift.PrimOp Thrift.PrimOpsSem Thrift.PrimOpsRSem Thrift.PrimOpsKnown Generated.PrimOps.
 From PV Require Import Proofs.VarintP Proofs.TablesP Proofs.PrimP Proofs.HeaderP Proofs.RoundtripP Proofs.LenP.
 From Coq Require Import ZifyN ZifyNat ZifyBool.
 Open Scope Z_scope.
@@ -14,17 +14,18 @@ Open Scope Z_scope.
 (* ================================================================== *)
 (* (1) the regenerated table against the pinned bodies *)
 
-Definition dflt : kentry := (""%string, ""%string, [], [], None).
+Definition dflt : kentry := (""%string, ""%string, [], [], [], None).
 
-Definition e_class (e : kentry) : string := let '(cls, _, _, _, _) := e in cls.
-Definition e_method (e : kentry) : string := let '(_, m, _, _, _) := e in m.
-Definition e_protos (e : kentry) : list string := let '(_, _, ps, _, _) := e in ps.
-Definition e_body (e : kentry) : list stmt := let '(_, _, _, b, _) := e in b.
-Definition e_value (e : kentry) : option expr := let '(_, _, _, _, v) := e in v.
+Definition e_class (e : kentry) : string := let '(cls, _, _, _, _, _) := e in cls.
+Definition e_method (e : kentry) : string := let '(_, m, _, _, _, _) := e in m.
+Definition e_protos (e : kentry) : list string := let '(_, _, ps, _, _, _) := e in ps.
+Definition e_flavours (e : kentry) : list string := let '(_, _, _, fs, _, _) := e in fs.
+Definition e_body (e : kentry) : list stmt := let '(_, _, _, _, b, _) := e in b.
+Definition e_value (e : kentry) : option expr := let '(_, _, _, _, _, v) := e in v.
 
 Definition row_matches (r : prow) (e : kentry) : bool :=
   String.eqb (r_class r) (e_class e) && String.eqb (r_method r) (e_method e) &&
-  existsb (String.eqb (r_proto r)) (e_protos e) &&
+  existsb (String.eqb (r_proto r)) (e_protos e) && existsb (String.eqb (r_flavour r)) (e_flavours e) &&
   stmts_eqb (r_body r) (e_body e) && oexpr_eqb (r_value r) (e_value e).
 
 Fixpoint index_of (r : prow) (l : list kentry) : nat :=
@@ -44,12 +45,14 @@ Definition entry_core (e : kentry) : string * string * list stmt * option expr :
 Lemma table_known :
   map row_core prim_ops = map (fun r => entry_core (entry_of r)) prim_ops /\
   forallb (fun r => existsb (String.eqb (r_proto r)) (e_protos (entry_of r))) prim_ops = true /\
+  forallb (fun r => existsb (String.eqb (r_flavour r)) (e_flavours (entry_of r))) prim_ops = true /\
   forallb (fun r => Nat.ltb (index_of r known) (length known)) prim_ops = true.
-Proof. split; [vm_compute; reflexivity|split; vm_compute; reflexivity]. Qed.
+Proof. split; [vm_compute; reflexivity|split; [vm_compute; reflexivity|split; vm_compute; reflexivity]]. Qed.
 
 (* non-vacuity: the table has the rows every version of the protocols has *)
 Example table_nonempty :
-  (200 <=? length prim_ops)%nat = true /\
+  (350 <=? length prim_ops)%nat = true /\
+  existsb (fun r => String.eqb (r_method r) "read_i32" && String.eqb (r_flavour r) "async") prim_ops = true /\
   existsb (fun r => String.eqb (r_method r) "write_double" && String.eqb (r_proto r) "compact") prim_ops = true /\
   existsb (fun r => String.eqb (r_method r) "i16_len" && String.eqb (r_proto r) "binary_le") prim_ops = true.
 Proof. vm_compute. repeat split; reflexivity. Qed.
@@ -70,9 +73,12 @@ Definition row_of (e : kentry) : prow := mkRow "" (e_class e) "" (e_method e) []
 
 Definition sound (e : kentry) : Prop :=
   forall proto p, In proto (e_protos e) -> pk_of proto = Some p ->
-  forall k a c, args_ok (e_method e) a c ->
-    (e_class e = "write"%string -> exists w, wspec p k (e_method e) a = Some w /\ fl (run_w p k (row_of e) a c) = fl (w c)) /\
-    (e_class e = "len"%string -> exists l, lspec p (e_method e) a = Some l /\ run_l p (row_of e) a c = l c).
+    (e_class e = "write"%string -> forall k a c, args_ok (e_method e) a c ->
+       exists w, wspec p k (e_method e) a = Some w /\ fl (run_w p k (row_of e) a c) = fl (w c)) /\
+    (e_class e = "len"%string -> forall (k : bk) a c, args_ok (e_method e) a c ->
+       exists l, lspec p (e_method e) a = Some l /\ run_l p (row_of e) a c = l c) /\
+    (e_class e = "read"%string -> forall fv, In fv (e_flavours e) ->
+       exists m, rspec (seqb fv "async") p (e_method e) = Some m /\ forall s, run_r (seqb fv "async") p (row_of e) s = m s).
 
 (* ---- arithmetic of the header bytes ---- *)
 Lemma nth_bytes2 (l : list byte) : length l = 2%nat -> [nth 0 l x00; nth 1 l x00] = l.
@@ -122,11 +128,20 @@ Ltac proto_cases :=
   match goal with
   | H : In _ _ |- _ => cbn [In e_protos] in H; repeat (destruct H as [H|H]; [subst|]); try contradiction
   end.
+Ltac flav_cases :=
+  match goal with
+  | H : In _ _ |- _ => cbn [In e_flavours] in H; repeat (destruct H as [H|H]; [subst|]); try contradiction
+  end.
 Ltac setup :=
-  unfold sound; cbn [e_class e_method e_protos e_body e_value row_of];
-  intros proto p Hin Hp k a c Hok; proto_cases; cbv in Hp; injection Hp as <-;
-  (split; intros Hc; [try discriminate Hc|try discriminate Hc]);
-  (eexists; split; [reflexivity|]).
+  unfold sound; cbn [e_class e_method e_protos e_flavours e_body e_value row_of];
+  intros proto p Hin Hp; proto_cases; cbv in Hp; injection Hp as <-;
+  (split; [|split]); intros Hc; try discriminate Hc;
+  [ intros k a c Hok; (eexists; split; [reflexivity|]) .. ].
+Ltac setup_r :=
+  unfold sound; cbn [e_class e_method e_protos e_flavours e_body e_value row_of];
+  intros proto p Hin Hp; proto_cases; cbv in Hp; injection Hp as <-;
+  (split; [|split]); intros Hc; try discriminate Hc;
+  intros fv Hfv; flav_cases; (eexists; split; [reflexivity|]); intros s.
 Ltac splitall :=
   match goal with kk : bk |- _ => destruct kk as [|[|]] end;
   match goal with aa : margs |- _ => destruct aa as [z id b l ty ty2 ct msg]; destruct b end;
@@ -176,6 +191,39 @@ Ltac t_coll :=
 Ltac t_fieldc :=
   setup; splitlean; match goal with t : ttype, t2 : ttype |- _ => destruct t end; try reflexivity;
   norm; ctd; useok; rw16; rewrite ?wrap_u8_ctype; cases; try reflexivity; try lia; fin.
+
+(* ---- readers ---- *)
+Lemma wrap_u64_u32 z : wrap_u 64 (wrap_u 32 z) = wrap_u 32 z.
+Proof. unfold wrap_u. change (2 ^ 64) with 18446744073709551616. change (2 ^ 32) with 4294967296. rewrite (Z.mod_small (z mod 4294967296)); lia. Qed.
+Lemma wrap_u64_of_s32 x : 0 <= wrap_s 32 x -> wrap_u 64 (wrap_s 32 x) = wrap_s 32 x.
+Proof.
+  intros H. pose proof (wrap_s_range 32 x ltac:(lia)) as [_ R]. change (2 ^ (32 - 1)) with 2147483648 in R.
+  unfold wrap_u. change (2 ^ 64) with 18446744073709551616. apply Z.mod_small. lia.
+Qed.
+Ltac t_read := setup_r; reflexivity.
+Ltac rnorm := cbv -[Bytes.take rd_var of_le of_be wrap_s wrap_u unzigzag Z.add Z.mul Z.sub Z.div Z.modulo Z.leb Z.ltb Z.eqb Z.of_nat Z.to_nat Z.pow
+                    length ttype_lookup nth_error ttype_of_byte check_size ctype_of_code ttype_of_ctype ttype_of_nibble two64].
+Ltac rbrk :=
+  repeat (match goal with
+          | |- context [match Bytes.take ?n ?b with _ => _ end] => destruct (Bytes.take n b) as [[? ?]|] eqn:?
+          | |- context [match rd_var ?a ?b ?c ?d with _ => _ end] => destruct (rd_var a b c d) as [[? ?]| |] eqn:?
+          | |- context [match ttype_of_byte ?b with _ => _ end] => destruct (ttype_of_byte b) eqn:?
+          | |- context [match check_size ?n ?s with _ => _ end] => destruct (check_size n s) eqn:?
+          | |- context [match ttype_of_nibble ?n with _ => _ end] => destruct (ttype_of_nibble n) eqn:?
+          | |- context [if ?b then _ else _] => destruct b eqn:?
+          end; rnorm; rewrite ?wrap_u64_u32).
+Ltac contra :=
+  try solve [exfalso; cbn [Z.eqb Pos.eqb] in *; repeat match goal with H : context [if ?c then _ else _] |- _ => destruct c; cbn [Z.eqb Pos.eqb] in * end; congruence].
+Ltac tyend := try (match goal with t : ttype |- _ => destruct t end; try reflexivity; contra).
+Ltac t_read2 := setup_r; match goal with ss : rst |- _ => destruct ss as [buf rcx] end;
+  change (Z.to_nat 16) with 16%nat; rnorm; change (Z.to_nat 16) with 16%nat; rewrite ?wrap_u64_u32; rbrk; try reflexivity; contra; tyend.
+Ltac t_read_neg := setup_r; match goal with ss : rst |- _ => destruct ss as [buf rcx] end; rnorm;
+  match goal with |- context [match Bytes.take ?n ?b with _ => _ end] => destruct (Bytes.take n b) as [[? ?]|] eqn:? end; rnorm; try reflexivity;
+  match goal with |- context [wrap_s 32 ?x <? 0] => destruct (Z.ltb_spec (wrap_s 32 x) 0); cbn [Z.eqb Pos.eqb]; rnorm; try reflexivity; try (rewrite (wrap_u64_of_s32 x) by lia) end;
+  rbrk; try reflexivity; contra.
+
+
+
 
 Lemma sound_chunk_0 : Forall sound (firstn 6 (skipn 0 known)).
 Proof.
@@ -364,11 +412,149 @@ Proof.
   1: solve [t_coll].  (* entry 101 *)
 Qed.
 
-Lemma known_chunks : known = (firstn 6 (skipn 0 known) ++ firstn 6 (skipn 6 known) ++ firstn 6 (skipn 12 known) ++ firstn 6 (skipn 18 known) ++ firstn 6 (skipn 24 known) ++ firstn 6 (skipn 30 known) ++ firstn 6 (skipn 36 known) ++ firstn 6 (skipn 42 known) ++ firstn 6 (skipn 48 known) ++ firstn 6 (skipn 54 known) ++ firstn 6 (skipn 60 known) ++ firstn 6 (skipn 66 known) ++ firstn 6 (skipn 72 known) ++ firstn 6 (skipn 78 known) ++ firstn 6 (skipn 84 known) ++ firstn 6 (skipn 90 known) ++ firstn 6 (skipn 96 known))%list.
+Lemma sound_chunk_17 : Forall sound (firstn 6 (skipn 102 known)).
+Proof.
+  cbv [firstn skipn known]. repeat (apply Forall_cons; [|]); try apply Forall_nil.
+  1: solve [t_read].  (* entry 102 *)
+  1: solve [t_read].  (* entry 103 *)
+  1: solve [t_read].  (* entry 104 *)
+  1: solve [t_read2].  (* entry 105 *)
+  1: solve [t_read].  (* entry 106 *)
+  1: solve [t_read2].  (* entry 107 *)
+Qed.
+
+Lemma sound_chunk_18 : Forall sound (firstn 6 (skipn 108 known)).
+Proof.
+  cbv [firstn skipn known]. repeat (apply Forall_cons; [|]); try apply Forall_nil.
+  1: solve [t_read2].  (* entry 108 *)
+  1: solve [t_read2].  (* entry 109 *)
+  1: solve [t_read2].  (* entry 110 *)
+  1: solve [t_read2].  (* entry 111 *)
+  1: solve [t_read2].  (* entry 112 *)
+  1: solve [t_read2].  (* entry 113 *)
+Qed.
+
+Lemma sound_chunk_19 : Forall sound (firstn 6 (skipn 114 known)).
+Proof.
+  cbv [firstn skipn known]. repeat (apply Forall_cons; [|]); try apply Forall_nil.
+  1: solve [t_read2].  (* entry 114 *)
+  1: solve [t_read2].  (* entry 115 *)
+  1: solve [t_read2].  (* entry 116 *)
+  1: solve [t_read2].  (* entry 117 *)
+  1: solve [t_read].  (* entry 118 *)
+  1: solve [t_read2].  (* entry 119 *)
+Qed.
+
+Lemma sound_chunk_20 : Forall sound (firstn 6 (skipn 120 known)).
+Proof.
+  cbv [firstn skipn known]. repeat (apply Forall_cons; [|]); try apply Forall_nil.
+  1: solve [t_read].  (* entry 120 *)
+  1: solve [t_read2].  (* entry 121 *)
+  1: solve [t_read].  (* entry 122 *)
+  1: solve [t_read2].  (* entry 123 *)
+  1: solve [t_read2].  (* entry 124 *)
+  1: solve [t_read].  (* entry 125 *)
+Qed.
+
+Lemma sound_chunk_21 : Forall sound (firstn 6 (skipn 126 known)).
+Proof.
+  cbv [firstn skipn known]. repeat (apply Forall_cons; [|]); try apply Forall_nil.
+  1: solve [t_read].  (* entry 126 *)
+  1: solve [t_read].  (* entry 127 *)
+  1: solve [t_read2].  (* entry 128 *)
+  1: solve [t_read].  (* entry 129 *)
+  1: solve [t_read2].  (* entry 130 *)
+  1: solve [t_read].  (* entry 131 *)
+Qed.
+
+Lemma sound_chunk_22 : Forall sound (firstn 6 (skipn 132 known)).
+Proof.
+  cbv [firstn skipn known]. repeat (apply Forall_cons; [|]); try apply Forall_nil.
+  1: solve [t_read_neg].  (* entry 132 *)
+  1: solve [t_read2].  (* entry 133 *)
+  1: solve [t_read2].  (* entry 134 *)
+  1: solve [t_read].  (* entry 135 *)
+  1: solve [t_read2].  (* entry 136 *)
+  1: solve [t_read2].  (* entry 137 *)
+Qed.
+
+Lemma sound_chunk_23 : Forall sound (firstn 6 (skipn 138 known)).
+Proof.
+  cbv [firstn skipn known]. repeat (apply Forall_cons; [|]); try apply Forall_nil.
+  1: solve [t_read2].  (* entry 138 *)
+  1: solve [t_read2].  (* entry 139 *)
+  1: solve [t_read2].  (* entry 140 *)
+  1: solve [t_read2].  (* entry 141 *)
+  1: solve [t_read2].  (* entry 142 *)
+  1: solve [t_read].  (* entry 143 *)
+Qed.
+
+Lemma sound_chunk_24 : Forall sound (firstn 6 (skipn 144 known)).
+Proof.
+  cbv [firstn skipn known]. repeat (apply Forall_cons; [|]); try apply Forall_nil.
+  1: solve [t_read2].  (* entry 144 *)
+  1: solve [t_read].  (* entry 145 *)
+  1: solve [t_read2].  (* entry 146 *)
+  1: solve [t_read].  (* entry 147 *)
+  1: solve [t_read2].  (* entry 148 *)
+  1: solve [t_read2].  (* entry 149 *)
+Qed.
+
+Lemma sound_chunk_25 : Forall sound (firstn 6 (skipn 150 known)).
+Proof.
+  cbv [firstn skipn known]. repeat (apply Forall_cons; [|]); try apply Forall_nil.
+  1: solve [t_read2].  (* entry 150 *)
+  1: solve [t_read2].  (* entry 151 *)
+  1: solve [t_read2].  (* entry 152 *)
+  1: solve [t_read2].  (* entry 153 *)
+  1: solve [t_read2].  (* entry 154 *)
+  1: solve [t_read2].  (* entry 155 *)
+Qed.
+
+Lemma sound_chunk_26 : Forall sound (firstn 6 (skipn 156 known)).
+Proof.
+  cbv [firstn skipn known]. repeat (apply Forall_cons; [|]); try apply Forall_nil.
+  1: solve [t_read_neg].  (* entry 156 *)
+  1: solve [t_read2].  (* entry 157 *)
+  1: solve [t_read2].  (* entry 158 *)
+  1: solve [t_read2].  (* entry 159 *)
+  1: solve [t_read2].  (* entry 160 *)
+  1: solve [t_read2].  (* entry 161 *)
+Qed.
+
+Lemma sound_chunk_27 : Forall sound (firstn 6 (skipn 162 known)).
+Proof.
+  cbv [firstn skipn known]. repeat (apply Forall_cons; [|]); try apply Forall_nil.
+  1: solve [t_read2].  (* entry 162 *)
+  1: solve [t_read2].  (* entry 163 *)
+  1: solve [t_read2].  (* entry 164 *)
+  1: solve [t_read2].  (* entry 165 *)
+  1: solve [t_read2].  (* entry 166 *)
+  1: solve [t_read2].  (* entry 167 *)
+Qed.
+
+Lemma sound_chunk_28 : Forall sound (firstn 6 (skipn 168 known)).
+Proof.
+  cbv [firstn skipn known]. repeat (apply Forall_cons; [|]); try apply Forall_nil.
+  1: solve [t_read2].  (* entry 168 *)
+  1: solve [t_read2].  (* entry 169 *)
+  1: solve [t_read2].  (* entry 170 *)
+  1: solve [t_read2].  (* entry 171 *)
+  1: solve [t_read2].  (* entry 172 *)
+  1: solve [t_read2].  (* entry 173 *)
+Qed.
+
+Lemma sound_chunk_29 : Forall sound (firstn 2 (skipn 174 known)).
+Proof.
+  cbv [firstn skipn known]. repeat (apply Forall_cons; [|]); try apply Forall_nil.
+  1: solve [t_read2].  (* entry 174 *)
+  1: solve [t_read2].  (* entry 175 *)
+Qed.
+
+Lemma known_chunks : known = (firstn 6 (skipn 0 known) ++ firstn 6 (skipn 6 known) ++ firstn 6 (skipn 12 known) ++ firstn 6 (skipn 18 known) ++ firstn 6 (skipn 24 known) ++ firstn 6 (skipn 30 known) ++ firstn 6 (skipn 36 known) ++ firstn 6 (skipn 42 known) ++ firstn 6 (skipn 48 known) ++ firstn 6 (skipn 54 known) ++ firstn 6 (skipn 60 known) ++ firstn 6 (skipn 66 known) ++ firstn 6 (skipn 72 known) ++ firstn 6 (skipn 78 known) ++ firstn 6 (skipn 84 known) ++ firstn 6 (skipn 90 known) ++ firstn 6 (skipn 96 known) ++ firstn 6 (skipn 102 known) ++ firstn 6 (skipn 108 known) ++ firstn 6 (skipn 114 known) ++ firstn 6 (skipn 120 known) ++ firstn 6 (skipn 126 known) ++ firstn 6 (skipn 132 known) ++ firstn 6 (skipn 138 known) ++ firstn 6 (skipn 144 known) ++ firstn 6 (skipn 150 known) ++ firstn 6 (skipn 156 known) ++ firstn 6 (skipn 162 known) ++ firstn 6 (skipn 168 known) ++ firstn 2 (skipn 174 known))%list.
 Proof. reflexivity. Qed.
 
 Theorem known_sound : Forall sound known.
 Proof.
-  rewrite known_chunks. repeat (apply Forall_app; split); first [exact sound_chunk_0 | exact sound_chunk_1 | exact sound_chunk_2 | exact sound_chunk_3 | exact sound_chunk_4 | exact sound_chunk_5 | exact sound_chunk_6 | exact sound_chunk_7 | exact sound_chunk_8 | exact sound_chunk_9 | exact sound_chunk_10 | exact sound_chunk_11 | exact sound_chunk_12 | exact sound_chunk_13 | exact sound_chunk_14 | exact sound_chunk_15 | exact sound_chunk_16].
+  rewrite known_chunks. repeat (apply Forall_app; split); first [exact sound_chunk_0 | exact sound_chunk_1 | exact sound_chunk_2 | exact sound_chunk_3 | exact sound_chunk_4 | exact sound_chunk_5 | exact sound_chunk_6 | exact sound_chunk_7 | exact sound_chunk_8 | exact sound_chunk_9 | exact sound_chunk_10 | exact sound_chunk_11 | exact sound_chunk_12 | exact sound_chunk_13 | exact sound_chunk_14 | exact sound_chunk_15 | exact sound_chunk_16 | exact sound_chunk_17 | exact sound_chunk_18 | exact sound_chunk_19 | exact sound_chunk_20 | exact sound_chunk_21 | exact sound_chunk_22 | exact sound_chunk_23 | exact sound_chunk_24 | exact sound_chunk_25 | exact sound_chunk_26 | exact sound_chunk_27 | exact sound_chunk_28 | exact sound_chunk_29].
 Qed.
-
